@@ -89,7 +89,9 @@ class DummyFlag:
         return False
 
 
-ODD_TEXTS = [')', '(', '(assert (x)', '(a))', '(a)) (b)', '"unterminated',
+DEEP_TERM = ('(declare-const p Bool)\n(assert ' + '(not ' * 1500 + 'p' +
+             ')' * 1500 + ')\n(check-sat)\n')
+ODD_TEXTS = [DEEP_TERM, ')', '(', '(assert (x)', '(a))', '(a)) (b)', '"unterminated',
              '|unterminated', 'a b c', '()', '', '(()', '())', ';only comment',
              '(assert true) )', '(declare-const x Int', ') (check-sat)',
              '(set-logic', '"s" (check-sat)', '(x)(y)(z))))']
@@ -149,6 +151,14 @@ def main_process_paths(shape, placement):
         except Exception as e:  # noqa
             bad.append(('collect_information', type(e).__name__, str(e)))
             return bad, text
+        # both strategies count nodes / expressions of the input in the main
+        # process
+        from ddsmt import nodes as _nodes
+        for fn in (_nodes.count_nodes, _nodes.count_exprs):
+            try:
+                fn(exprs)
+            except Exception as e:  # noqa
+                bad.append((fn.__name__, type(e).__name__, str(e)))
         # everything enabled for the generators
         mutators.toggle_all_theories(ns, True)
         try:
